@@ -731,7 +731,7 @@ Proof.
   { apply respects_map in Hresp. eapply respects_ext; [|exact Hresp].
     intros x y Hxy. exists x, y. unfold the_line. simpl. auto. }
   destruct (roundtrip_abstract_full a st ord Hfull (Permutation_sym Hpo) Hrb) as (fin & Hfin & Hcount & Hrest).
-  rewrite (real_apply_is_apply_all dispatch a H4), Hfin. exists fin. split; [reflexivity | assumption].
+  rewrite (real_apply_is_apply_all dispatch a H4 _ _ fin Hfin). exists fin. split; [reflexivity | assumption].
 Qed.
 
 (* ---- non-vacuity: a switch with a pointer sub-tree and a trimmed array ---------------- *)
